@@ -19,7 +19,7 @@ from ..core import pool_map
 MODULE = "ia/IaSolver.tla"
 DEVS = ["PSetterKeepsDerived", "SetPrecodersKeepsFullW", "InvalidPCommitted", "SetFiltersKeepsFullW"]
 ALGS = ["ClosedForm", "AltMin", "MinLeakage", "MaxSINR", "MMSE"]
-ACTS = {"Solve", "RandomizeF", "SetPrecoders", "SetFilters", "SetP", "SetPInvalid", "NewChannel", "ReadFullF", "ReadWconv", "ReadFullWH", "ReadFullW"}
+ACTS = {"Solve", "RandomizeF", "SetPrecoders", "SetFilters", "SetP", "SetPInvalid", "RejectedCall", "NewChannel", "ReadFullF", "ReadWconv", "ReadFullWH", "ReadFullW"}
 TOL = 1e-7
 
 
@@ -81,6 +81,8 @@ class Driver:
             modes = ["random", "svd", "closed_form"] + (["alt_min"] if alg != "AltMin" else [])
             self.s.initialize_with = modes[seed % len(modes)]
         self.F = None          # primary inputs as the harness knows them
+        self.given = []        # (what, array the caller passed, copy): the solver must not write into the caller's arrays
+        self.held = []         # (what, array a reader returned, copy): a later call must not change an earlier result
         self.fullF = None      # MMSE: solve() returns power-scaled precoders with LESS than full power; they are primary then
         self.WH = None
         self.pkind = "default"
@@ -119,6 +121,7 @@ class Driver:
                 Fa[k] = F[k]
             form = self.rs.randint(0, 3)
             arg = list(F) if form == 0 else (Fa if form == 1 else np.array(F))      # list / object array / stacked 3-D array
+            self.given = [(f"precoder {k} passed to set_precoders", F[k], F[k].copy()) for k in range(K)]
             if how == "F":
                 s.set_precoders(F=arg, **kw)
             else:
@@ -149,6 +152,18 @@ class Driver:
             except ValueError:
                 return None
             return ("error", f"P = {bad} was accepted (no ValueError)")
+        if op == "RejectedCall":
+            w = [self.rs.randn(1, self.N) + 0j for _ in range(K)]
+            try:
+                if a[0] == "precodersNone":
+                    s.set_precoders()
+                elif a[0] == "filtersBoth":
+                    s.set_receive_filters(W_H=w, W=[x.conj().T for x in w])
+                else:
+                    s.set_receive_filters()
+            except RuntimeError:
+                return None
+            return ("error", f"rejected call {a[0]} was accepted")
         if op == "NewChannel":
             self.ch.randomize(self.N, self.N, K)
             self.F = None
@@ -156,7 +171,9 @@ class Driver:
             self.fullF = None
             return None
         if op == "ReadFullF":
-            return ("full_F", s.full_F)
+            r = s.full_F
+            self.held = (self.held + [(f"full_F[{k}] read earlier", r[k], np.array(r[k])) for k in range(K)])[-9:]
+            return ("full_F", r)
         if op == "ReadWconv":
             return ("conv", s.W if e["post"]["wGiven"] == "W_H" else s.W_H)
         if op == "ReadFullWH":
@@ -281,7 +298,19 @@ def run_path(job):
                 name = kind if kind != "conv" else ("W" if e["post"]["wGiven"] == "W_H" else "W_H")
                 if name in ev and not close_list(val, ev[name]):
                     bad.append(f"{name} returned by the reader is stale / wrong")
-        bad += check_state(drv, e, i)
+        try:
+            bad += check_state(drv, e, i)
+        except Exception as ex:       # a view / predicate that cannot even be evaluated in a state where it is required
+            bad.append(f"required views could not be evaluated after {e['ret']['op']}{e['ret']['a']}: {type(ex).__name__}: {ex}")
+        for what, ref, cp in drv.given:
+            if not np.array_equal(ref, cp):
+                bad.append(f"the {what} was modified by the solver")
+        if e["ret"]["op"] not in ("Solve",):
+            for what, ref, cp in drv.held:
+                if not np.array_equal(ref, cp):
+                    bad.append(f"the array {what} was changed by a later call ({e['ret']['op']})")
+        else:
+            drv.held = []
         if bad:
             return okc, {"step": i, "op": e["ret"], "what": "; ".join(bad[:3])}
         okc += 1
@@ -400,7 +429,7 @@ def run(ctx):
         if not thorough and alg in ("AltMin", "MinLeakage", "MaxSINR"):
             m.update(cover=False, walks=220, walk_len=10)
         explore(ctx, alg, r, m)
-    ctx.require_actions(["Solve", "RandomizeF", "SetPrecoders", "SetFilters", "SetP", "SetPInvalid", "NewChannel",
+    ctx.require_actions(["Solve", "RandomizeF", "SetPrecoders", "SetFilters", "SetP", "SetPInvalid", "RejectedCall", "NewChannel",
                          "ReadFullF", "ReadWconv", "ReadFullWH", "ReadFullW"])
     ctx.exhaustive = True
     # (rel) leakage never increases, feasible (K=3) and infeasible (K=4) configurations
